@@ -1,7 +1,11 @@
-"""Table definitions for the extractor (one function per generated Lean file)."""
+"""Table definitions for the extractor. Each group keeps its own file harness/tables_<group>.py,
+which registers tables with `@table("Name")` (-> lean/DaskModel/Generated/Name.lean) and modelled
+functions with `fp(rel_path, qualname, ...)` (fingerprints). This module just imports them all."""
 from __future__ import annotations
 
-import ast
+import glob
+import importlib
+import os
 
 from extract import ExtractError, FINGERPRINTS, find_def, lean_str, parse, table  # noqa: F401
 
@@ -9,3 +13,7 @@ from extract import ExtractError, FINGERPRINTS, find_def, lean_str, parse, table
 def fp(rel, *qualnames):
     for q in qualnames:
         FINGERPRINTS[f"{rel}::{q}"] = None
+
+
+for _p in sorted(glob.glob(os.path.join(os.path.dirname(os.path.abspath(__file__)), "tables_*.py"))):
+    importlib.import_module(os.path.basename(_p)[:-3])
